@@ -17,3 +17,35 @@ func VerifGetProofInfo(
 ) (bool, uint, uint, error) {
 	return getProofInfo(transactionHash, btcChain, spvChain, btcDiffChain)
 }
+
+// VerifProveTransactions runs one proving round of proveTransactions on a
+// maintainer built from the given chains: the round's unproven transactions
+// are the given ones and every constructed proof is handed to submit. It has
+// no behaviour of its own.
+func VerifProveTransactions(
+	btcChain bitcoin.Chain,
+	spvChain Chain,
+	btcDiffChain btcdiff.Chain,
+	transactions []*bitcoin.Transaction,
+	submit func(transactionHash bitcoin.Hash, requiredConfirmations uint) error,
+) error {
+	sm := &spvMaintainer{
+		spvChain:     spvChain,
+		btcDiffChain: btcDiffChain,
+		btcChain:     btcChain,
+	}
+
+	return sm.proveTransactions(
+		func(uint64, int, bitcoin.Chain, Chain) ([]*bitcoin.Transaction, error) {
+			return transactions, nil
+		},
+		func(
+			transactionHash bitcoin.Hash,
+			requiredConfirmations uint,
+			_ bitcoin.Chain,
+			_ Chain,
+		) error {
+			return submit(transactionHash, requiredConfirmations)
+		},
+	)
+}
